@@ -106,7 +106,6 @@ structure St where
   tree : Tree
   binds : Array Binding := #[]
   owned : Array Nat := #[]          -- references the application holds, per window
-  pressSeen : Bool := false         -- `mouse_last_*` have been written (they are uninitialised before)
   log : List LogItem := []          -- newest first
 deriving Repr, Inhabited
 
@@ -201,9 +200,9 @@ def flush (t : Tree) : Res Tree :=
 structure Cfg where
   /-- `_ref_children` / `_unref_children`: the sibling loops walk a counted snapshot and skip closed children. -/
   snapshot : Bool
-  /-- `_forget_drag_source`: `_handle_mouse` returns a counted reference; the root's (uncounted) drag source is
-      stored only if it is still in the tree and forgotten when it leaves the tree (`tickit_window_close`);
-      the press memory is initialised by `tickit_window_new_root2`. -/
+  /-- `_handle_mouse` returns a counted reference to the window that claimed the event (instead of withdrawing the
+      claim of a window that closed or dropped itself), and the root stores a drag source only if it is still in
+      the tree. -/
   counted : Bool
   /-- `_is_shown`: the whole parent chain must be visible, on entry and before the window's own handlers. -/
   shown : Bool
@@ -214,11 +213,11 @@ def Cfg.legacy : Cfg := ⟨false, false, false⟩
 def Cfg.repaired : Cfg := ⟨true, true, true⟩
 
 
-/-- After the repair `tickit_window_close(win)` forgets a drag source that is `win` or lies below it.  A drag
-    source is only ever stored while attached to the root and only `close` detaches windows, so this is:
-    a drag source that is no longer attached to the root is forgotten. -/
-def normalizeDrag (cfg : Cfg) (t : Tree) : Tree :=
-  if !cfg.counted then t else
+/-- `_purge_hierarchy_changes(win)` (called by `tickit_window_close` and `tickit_window_destroy` for a window that
+    still has a parent) forgets a drag source that is `win` or lies below it.  A drag source is only ever stored
+    while attached to the root and only `close` detaches windows, so this is: a drag source that is no longer
+    attached to the root is forgotten. -/
+def normalizeDrag (t : Tree) : Tree :=
   match t.root.dragSource with
   | none => t
   | some d => if isAlive t d && isWithin t (treeFuel t) 0 d then t else { t with root := { t.root with dragSource := none } }
@@ -237,7 +236,7 @@ def preorder (t : Tree) : Nat → Id → List Id
 /-- `tickit_window_unref` with the DESTROY events logged. -/
 def unrefLogged (cfg : Cfg) (st : St) (win : Id) : Res St := do
   let t ← WinTree.unref (fun t _ => pure t) (destroyFuel st.tree) st.tree win
-  let t := normalizeDrag cfg t
+  let t := normalizeDrag t
   let gone := (preorder st.tree (treeFuel st.tree) win).filter fun i => isAlive st.tree i && !isAlive t i
   pure (gone.foldl (fun st i => st.say (.destroyed i)) { st with tree := t })
 
@@ -262,7 +261,7 @@ def doAction (cfg : Cfg) (st : St) (a : Action) : Res St :=
   let t := st.tree
   let f := treeFuel t
   match a.act with
-  | .close => do let t ← WinTree.close t f a.win; pure { st with tree := normalizeDrag cfg t }
+  | .close => do let t ← WinTree.close t f a.win; pure { st with tree := normalizeDrag t }
   | .unref => unrefLogged cfg { st with owned := st.owned.setIfInBounds a.win (st.owned.getD a.win 0 - 1) } a.win
   | .keep => do let t ← WinTree.ref t a.win; pure { st with tree := t, owned := st.owned.setIfInBounds a.win (st.owned.getD a.win 0 + 1) }
   | .hide => do let t ← WinTree.hide t f a.win; pure { st with tree := t }
@@ -422,6 +421,9 @@ end
 
 /-- `done: tickit_window_unref(win); return ret;` -/
 def mouseDone (cfg : Cfg) (st : St) (win : Id) (ret : Option Id) : Out (St × Option Id) := do
+  -- if(win->is_closed || win->refcount == 1) ret = NULL;   (not with the counted return)
+  let w ← get st.tree win
+  let ret := if !cfg.counted && (w.isClosed || w.refcount = 1) then none else ret
   let st ← unrefLogged cfg st win
   pure (st, ret)
 
@@ -528,13 +530,12 @@ def toDragSource (cfg : Cfg) (fuel : Nat) (st : St) (src : Id) (type : Int) (ev 
 
 /-- `on_term_mouse`. -/
 def onTermMouse (cfg : Cfg) (fuel : Nat) (st : St) (ev : Ev) : Out (St × Bool) := do
+  let st ← refWin st 0                 -- tickit_window_ref(win): the root is needed between the dispatches
   let root := st.tree.root
   let st ←
     if ev.type = evPress then
-      (pure { st with pressSeen := true,
-                      tree := { st.tree with root := { root with mouseLastButton := ev.button, mouseLastLine := ev.line, mouseLastCol := ev.col } } } : Out St)
+      (pure { st with tree := { st.tree with root := { root with mouseLastButton := ev.button, mouseLastLine := ev.line, mouseLastCol := ev.col } } } : Out St)
     else if ev.type = evDrag && !root.mouseDragging then do
-      if !st.pressSeen then (.ub "on_term_mouse: mouse_last_* read uninitialised (drag before any press)" : Out Unit) else pure ()
       let (st, src) ← handleMouse cfg fuel st 0 { type := evDragStart, button := root.mouseLastButton, line := root.mouseLastLine, col := root.mouseLastCol }
       let st ← dragSourceSet cfg st src
       pure { st with tree := { st.tree with root := { st.tree.root with mouseDragging := true } } }
@@ -544,7 +545,6 @@ def onTermMouse (cfg : Cfg) (fuel : Nat) (st : St) (ev : Ev) : Out (St × Bool) 
       let st ← match st.tree.root.dragSource with
         | none => (pure st : Out St)
         | some src => toDragSource cfg fuel st src evDragStop ev
-      let st := if cfg.counted then { st with tree := { st.tree with root := { st.tree.root with dragSource := none } } } else st
       pure { st with tree := { st.tree with root := { st.tree.root with mouseDragging := false } } }
     else pure st
   let (st, handled) ← handleMouse cfg fuel st 0 ev
@@ -555,6 +555,7 @@ def onTermMouse (cfg : Cfg) (fuel : Nat) (st : St) (ev : Ev) : Out (St × Bool) 
       else (pure st : Out St)
     | none => pure st
   let st ← dropResult cfg st handled
+  let st ← unrefLogged cfg st 0        -- tickit_window_unref(win)
   pure (st, handled.isSome)
 
 /-- `tickit_term_emit_key`: the root window's binding, then the application's own. -/
@@ -569,20 +570,10 @@ def emitMouse (cfg : Cfg) (st : St) (ev : Ev) : Out St := do
 
 /-! ### the other operations of the engine -/
 
-/-- A fresh root window; before the repair nothing initialises the press memory. -/
-def newSt0 (cfg : Cfg) (lines cols : Int) : St :=
-  let st : St := { tree := newRoot lines cols, owned := #[1] }
-  if cfg.counted then
-    { st with pressSeen := true,
-              tree := { st.tree with root := { st.tree.root with mouseLastButton := 0, mouseLastLine := -1, mouseLastCol := -1 } } }
-  else st
-
-/-- The engine's `new`: a fresh root window followed by one PRESS of button 0 at (-1,-1) while nothing is bound
-    (it reaches no handler; it initialises the press memory). -/
-def newSt (cfg : Cfg) (lines cols : Int) : St :=
-  let st := newSt0 cfg lines cols
-  { st with pressSeen := true,
-            tree := { st.tree with root := { st.tree.root with mouseLastButton := 0, mouseLastLine := -1, mouseLastCol := -1 } } }
+/-- The engine's `new`: a fresh root window (`tickit_window_new_root2` initialises the press memory to button 0 at
+    (0,0), no drag, no drag source). -/
+def newSt (lines cols : Int) : St :=
+  { tree := newRoot lines cols, owned := #[1] }
 
 /-- `tickit_window_new` by the application (it keeps the reference). -/
 def newWin (st : St) (parent : Id) (rect : Rect) (rootParent hidden lowest steal : Bool) : Res (St × Id) := do
